@@ -1022,6 +1022,8 @@ var engineCorpus = []corpusCase{
 		fn: map[string][]eFres{"aa": st1("apple\npear\nplum\nfig\nlime"), "bb": st1("oak\nelm")}, cfg: eCfg{FlagCount: 1, Out: 32}, inputs: []string{"", "1", "11", "0", "2", "0", "1"}},
 	{name: "croak-while-reading", nodes: [][3]string{{"root", "LOAD aa 0; HALT; INCMP one 1; CROAK 8 1; INCMP two 2", "root"}, {"one", "HALT; INCMP _ 0", "one"}, {"two", "HALT; INCMP _ 0", "two"}, {"_catch", "MOUT back 0; HALT; INCMP _ 0", "catch"}},
 		fn: map[string][]eFres{"aa": []eFres{{Content: "v", Set: []uint32{8}}}}, cfg: eCfg{FlagCount: 2}, inputs: []string{"", "7", "0", "2"}},
+	{name: "exit-exact-fit", nodes: [][3]string{{"root", "HALT; INCMP end1 1; INCMP end2 2; INCMP end3 3", "root"}, {"end1", "LOAD bye1 0; HALT", "bye"}, {"end2", "LOAD bye2 0; HALT", "bye"}, {"end3", "LOAD bye3 0; HALT", "bye"}, {"_catch", "HALT; INCMP _ *", "catch"}},
+		fn: map[string][]eFres{"bye1": st1(strings.Repeat("b", 26)), "bye2": st1(strings.Repeat("b", 27)), "bye3": st1(strings.Repeat("b", 28))}, cfg: eCfg{FlagCount: 1, Out: 30}, inputs: []string{"", "2", "", "1", "", "3"}},
 	{name: "abnormal-end", nodes: [][3]string{{"root", "HALT; INCMP foo 1", "root"}, {"foo", "LOAD aa 10", "foo"}, {"_catch", "HALT; INCMP _ *", "catch"}},
 		fn: map[string][]eFres{"aa": st1("v")}, cfg: eCfg{FlagCount: 2}, inputs: []string{"", "1", "", "1"}},
 	{name: "browse-past-end", nodes: [][3]string{{"root", "LOAD aa 0; MAP aa; MNEXT nxt 11; MPREV prv 22; HALT; INCMP > 11; INCMP < 22", "r {{.aa}}"}, {"_catch", "MOUT back 0; HALT; INCMP _ 0", "catch"}},
